@@ -589,8 +589,23 @@ class Runner:
                 km = self.known_matcher(rec) if self.known_matcher is not None else None
                 self.res.records.append(rec)
                 return True
-        self.res.inconclusive.append('%s: %s depends on earlier calls (fresh process: %s; after %s: %s) but no clause script of the harness fails on it' % (
-            job_label, expr, show(g0), hist_text[:200], show(got)))
+        # no clause script notices the changed answer (it is still well-formed): the two answers themselves are the violation - each of
+        # these properties fixes what the function returns for an input, so an answer that changes with the calls made before cannot
+        # be right both times.  Replay: the expression in a forked child (state of a fresh import), the history, the expression again.
+        script = ('import sys, athlib, datetime, re, math\nfrom decimal import Decimal\n' + FRESH_SRC + self.witness_prelude + (setup or '') + '\n'
+                  'a_ = fresh(lambda: %s)\n' % expr + core.history_prelude(hist) + (setup or '') + '\nb_ = here(lambda: %s)\n' % expr +
+                  "print(%r, 'fresh:', a_, '; after the earlier call(s):', b_)\nsys.exit(0 if a_ == b_ else 1)\n" % expr)
+        code, out = core.fresh_script(script)
+        if code == 1:
+            self.res.obligations += 1
+            self.res.records.append({'label': 'answer-depends-on-earlier-calls', 'func': self.func, 'kind': 'answer-depends-on-earlier-calls',
+                                     'args_text': args_text + ' after ' + hist_text,
+                                     'expected': 'the answer of a fresh process (%s), whatever was called before' % show(g0),
+                                     'observed': out.strip()[-300:], 'script': script, 'model': {k: repr(v) for k, v in inputs.items()},
+                                     'job': job_label, 'history': [list(h) for h in hist[-20:]]})
+            return True
+        self.res.inconclusive.append('%s: %s depends on earlier calls (fresh process: %s; after %s: %s) but the difference did not reproduce in a replay [exit %s]' % (
+            job_label, expr, show(g0), hist_text[:200], show(got), code))
         return True
 
     def _counterexample(self, job_label, label, inputs, detail, quiet=False, history=None):
